@@ -105,6 +105,13 @@ def sea_case(draw, max_points=8, nds=(16, 24, 36), kinds=None, steep=None, max_n
     for _ in range(n):
         c = draw(st.integers(0, 3))
         dep.append(float("inf") if c < 2 else draw(log_uniform(5.0, 500.0)))
+    # depth-limited seas: a parametric sea cannot be higher than about 0.6 of the water depth (breaking limit); without
+    # this cap the generator produced 15 m waves in 7 m of water, for which the roughness / inversion solvers wander
+    for p, d_ in zip(pts, dep):
+        if p.get("hs") is not None and math.isfinite(d_):
+            p["hs"] = float(min(p["hs"], 0.6 * d_))
+            if "hs2" in p:
+                p["hs2"] = float(min(p["hs2"], 0.3 * d_))
     extra = {}
     if nonuniform_dirs and draw(st.integers(0, 2)) == 0:
         extra["dir_jitter"] = [draw(fl(-0.3, 0.3)) for _ in range(nd)]
